@@ -819,6 +819,10 @@ impl Real {
                         if b < v.len() { v[b] ^= 1 << (bit % 8); Some(v) } else { None }
                     }),
                     "trunc" => num(0).map(|n| bytes[..n.min(bytes.len())].to_vec()),
+                    "setbyte" => num(0).zip(num(1)).and_then(|(b, v)| {
+                        let mut x = bytes.clone();
+                        if b < x.len() && v < 256 { x[b] = v as u8; Some(x) } else { None }
+                    }),
                     "swap_trap" => num(0).zip(num(1)).and_then(|(a, b)| { if a < w.c.len() && b < w.c.len() { w.c.swap(a, b); Some(w.write()) } else { None } }),
                     "drop_trap" => num(0).and_then(|a| { if a < w.c.len() { w.c.remove(a); Some(w.write()) } else { None } }),
                     "dup_trap" => num(0).and_then(|a| { if a < w.c.len() { let t = w.c[a].clone(); w.c.push(t); Some(w.write()) } else { None } }),
@@ -836,6 +840,8 @@ impl Real {
                 };
                 let Some(out) = out else { return "bad-op".into() };
                 if out == bytes {
+                    // the operator changes nothing on this encapsulation: nothing to check (on either side)
+                    self.model_line = Some("noop".into());
                     return "bad-op".into();
                 }
                 match XEnc::deserialize(&out) {
